@@ -43,12 +43,45 @@ var termMu sync.Mutex
 // SolveAll solves obligations in parallel. Phase 1 leaves out the quantified axioms of spec functions
 // (fewer hypotheses: unsat is still a proof); obligations that are not unsat then get the axioms in phase 2.
 func SolveAll(obls []*Obligation, dir string, timeout int) float64 {
-	total := solvePhase(obls, dir, timeout, false)
+	// phase 0: non-linear arithmetic abstracted by uninterpreted functions (sound for unsat; fast)
+	var nl, rest []*Obligation
+	nlm := map[*Term]bool{}
+	for _, o := range obls {
+		if !o.Cover && (hasNL(o.Hyp, nlm) || hasNL(o.Goal, nlm)) {
+			nl = append(nl, o)
+		}
+	}
+	total := 0.0
+	if len(nl) > 0 {
+		for _, o := range nl {
+			o.relaxed = true
+		}
+		total += solvePhase(nl, dir, minInt(timeout, 10), false)
+		for _, o := range nl {
+			o.relaxed = false
+			if o.Status == "discharged" {
+				o.Result.Solver += "(nl-abstracted)"
+				continue
+			}
+			if o.Result.Status == "sat" {
+				o.Candidate = o.Result.Output
+				o.CandidateKind = "non-linear arithmetic abstracted by uninterpreted functions"
+			}
+		}
+	}
+	for _, o := range obls {
+		if o.Status != "discharged" || o.Cover {
+			rest = append(rest, o)
+		}
+	}
+	obls = rest
+	total += solvePhase(obls, dir, timeout, false)
 	var second []*Obligation
 	for _, o := range obls {
 		if !o.Cover && o.Status != "discharged" && len(o.Axioms) > 0 {
 			if o.Result.Status == "sat" {
 				o.Candidate = o.Result.Output
+				o.CandidateKind = "quantified axioms of spec functions left out"
 			}
 			second = append(second, o)
 		}
@@ -73,6 +106,10 @@ func solvePhase(obls []*Obligation, dir string, timeout int, withAxioms bool) fl
 			asserts = []*Term{o.Hyp, o.Goal}
 		} else {
 			h, g := prepareQuantified(o.Hyp, o.Goal)
+			if o.relaxed {
+				memo := map[*Term]*Term{}
+				h, g = relaxNL(h, memo), relaxNL(g, memo)
+			}
 			asserts = []*Term{h, Not(g)}
 			if withAxioms {
 				asserts = append(asserts, o.Axioms...)
@@ -85,6 +122,9 @@ func solvePhase(obls []*Obligation, dir string, timeout int, withAxioms bool) fl
 		}
 		if withAxioms {
 			fname += ".ax"
+		}
+		if o.relaxed {
+			fname += ".relaxed"
 		}
 		if conj.Op == "false" {
 			o.Result = SolveResult{Status: "unsat", Solver: "simplifier"}
@@ -123,7 +163,11 @@ func solvePhase(obls []*Obligation, dir string, timeout int, withAxioms bool) fl
 			defer wg.Done()
 			sem <- struct{}{}
 			defer func() { <-sem }()
-			r := Solve(dir, j.fname, j.script, timeout, nil)
+			to := timeout
+			if j.o.Cover && to > 4 {
+				to = 4 // vacuity guards get a short budget
+			}
+			r := Solve(dir, j.fname, j.script, to, nil)
 			j.o.Result = r
 			finishStatus(j.o)
 			mu.Lock()
@@ -168,14 +212,6 @@ func GenerateProp(pr *Program, prop string, onlyFunc string) *PropResult {
 				has = true
 			}
 		}
-		if !has && prop != "" {
-			// clauses may carry their own property override
-			for _, cl := range c.Clauses {
-				if cl.Prop == prop {
-					has = true
-				}
-			}
-		}
 		if !has {
 			continue
 		}
@@ -207,7 +243,7 @@ func GenerateProp(pr *Program, prop string, onlyFunc string) *PropResult {
 	}
 	for _, r := range res.Reports {
 		for _, o := range r.Obls {
-			if prop == "" || o.Prop == prop || o.Prop == "" {
+			if prop == "" || o.Prop == prop || o.Prop == "" || o.Prop == "*" {
 				res.Obls = append(res.Obls, o)
 			}
 		}
@@ -293,3 +329,10 @@ func writeJSON(path string, v interface{}) error {
 }
 
 func nowSec(t0 time.Time) float64 { return float64(time.Since(t0).Milliseconds()) / 1000 }
+
+func minInt(a, b int) int {
+	if a < b {
+		return a
+	}
+	return b
+}
